@@ -35,6 +35,14 @@ try:
     for tc in ET.parse(junit).iter("testcase"):
         res[f"{tc.get('classname')}::{tc.get('name')}"] = not any(c.tag in ("failure", "error", "skipped") for c in tc)
     lost = sorted(n for n in base if not res.get(n))
+    if lost:
+        # the suite draws random matrices: a baseline test lost once is re-run alone (twice) before it counts as lost
+        still = []
+        for name in lost:
+            mod, test = name.split("::", 1); node = mod.replace(".", "/") + ".py::" + test
+            again = [sh(f"cd {wt} && /venv/bin/python -m pytest -q -p no:cacheprovider --no-cov --timeout=900 '{node}'", env=env).returncode for _ in range(2)]
+            if any(again): still.append(name)
+        rec["baseline_tests_lost_once_but_passing_alone"] = sorted(set(lost) - set(still)); lost = still
     rec["tests_tail"] = t.stdout.strip().splitlines()[-1] if t.stdout.strip() else t.stderr[-200:]
     rec["baseline_tests_lost"] = lost
     d1 = sh(["/venv/bin/python", os.path.abspath(demo)], env=env, cwd="/tmp")
